@@ -81,10 +81,15 @@ def load_known(prop):
     return out
 
 
+LAST_VERDICT = None  # the Verdict of the running check (harness/runner.py reports its violations if the run ends in a machinery error)
+
+
 class Verdict:
     """Collects observations; separates violations from known findings."""
 
     def __init__(self, prop, tier):
+        global LAST_VERDICT
+        LAST_VERDICT = self
         self.prop = prop
         self.tier = tier
         self.known = {k["id"]: k for k in load_known(prop)}
